@@ -141,9 +141,9 @@ class C18(PoolCheck):
             for prog in programs:
                 for op in prog:
                     if op['api'] == 'find':
-                        op['api'] = 'iter_errors'
+                        op.update(api='iter_errors', lazy=0)
             if epilogue['api'] == 'find':
-                epilogue = dict(epilogue, api='iter_errors')
+                epilogue = dict(epilogue, api='iter_errors', lazy=0)
         return {'entry': key, 'scenario': scenario, 'programs': programs, 'epilogue': epilogue, 'build_first': build_first,
                 'policy': policy, 'sseed': rng.randrange(1 << 30), 'knobs': histories.gen_knobs(rng),
                 'lines': rng.random() < (0.25 if self.tier == 'quick' else 0.5),
